@@ -344,6 +344,32 @@ func nestPaths(depth int) [][]nesting {
 	return out
 }
 
+// spinePaths: deeper paths made only of constructors that are converted inline (no generated sub-method in between),
+// lengths 3..7, ending in an unnamed struct whose failing field is not its last field. Error locations are accumulated
+// along such a spine inside one generated method.
+func spinePaths() [][]nesting {
+	byName := map[string]nesting{}
+	for _, n := range c06Nestings() {
+		byName[n.name] = n
+	}
+	sl, mv, us := byName["slice"], byName["mapval"], byName["ustruct"]
+	var out [][]nesting
+	for d := 3; d <= 7; d++ {
+		var a, b, c []nesting
+		for i := 0; i < d-1; i++ {
+			a = append(a, sl)
+			if i%2 == 0 {
+				b = append(b, mv)
+			} else {
+				b = append(b, sl)
+			}
+			c = append(c, us)
+		}
+		out = append(out, append(a, us), append(b, us), append(c, us))
+	}
+	return out
+}
+
 func pathOK(p []nesting) bool {
 	for i, n := range p {
 		if n.name == "mapkey" {
@@ -387,6 +413,12 @@ func C07Scenarios(tier string) []*Scenario {
 		}
 		for _, wrap := range []string{"", "wrapErrors", "wrapErrorsUsing", "noerr"} {
 			for _, path := range nestPaths(depth) {
+				n++
+				out = append(out, buildC06(fmt.Sprintf("%05d", n), form, path, wrap, "C07", "C07"))
+			}
+		}
+		for _, wrap := range []string{"wrapErrors", "wrapErrorsUsing"} {
+			for _, path := range spinePaths() {
 				n++
 				out = append(out, buildC06(fmt.Sprintf("%05d", n), form, path, wrap, "C07", "C07"))
 			}
